@@ -5,13 +5,17 @@
 //! driver (`rrdriver`); requests starting with `!` are self-checking (observed
 //! must be `pass`). Lines starting with `#` are statistics (JSON).
 mod common;
+mod conc;
 mod ring;
+mod waits;
 
 fn main() {
     common::silence_panics();
     let args: Vec<String> = std::env::args().collect();
     let lines = match args.get(1).map(|s| s.as_str()) {
         Some("ring") => ring::run(&args),
+        Some("conc") => conc::run(&args),
+        Some("waits") => waits::run(&args),
         other => {
             eprintln!("unknown subcommand {other:?}");
             std::process::exit(2);
